@@ -439,12 +439,13 @@ Section Exec.
     end.
 
   (** *** UPDATE *)
-  (** RowSelector::select_rows: [None] = the WHERE clause failed to evaluate *)
+  (** RowSelector::select_rows / DeleteExecutor::collect_rows_with_scan: [None] = the WHERE clause failed to evaluate
+      for some row (both executors propagate the error; nothing has been touched at that point) *)
   Fixpoint select_rows (ctx : tctx) (w : option cond) (rows : list (nat * row)) : option (list (nat * row)) :=
     match rows with
     | [] => Some []
     | (i, r) :: rest =>
-        match (match w with None => Some true | Some c => cond_true (mkEnv (Some r) ctx) c end) with
+        match (match w with None => Some true | Some c => where_true (mkEnv (Some r) ctx) c end) with
         | None => None
         | Some b =>
             match select_rows ctx w rest with
@@ -581,13 +582,6 @@ Section Exec.
     end.
 
   (** *** DELETE *)
-  (** collect_rows_with_scan: an evaluation error means "not selected" *)
-  Definition collect_rows (ctx : tctx) (w : option cond) (rows : list (nat * row)) : list (nat * row) :=
-    filter (fun ir => match w with
-                      | None => true
-                      | Some c => match cond_true (mkEnv (Some (snd ir)) ctx) c with Some true => true | _ => false end
-                      end) rows.
-
   Fixpoint cascade_deletes (t pkc : nat) (rows : list (nat * row)) (k : nat) (d : db) (m : nat) : db * option nat * nat :=
     match rows with
     | [] => (d, None, m)
@@ -605,8 +599,10 @@ Section Exec.
     | Some tb =>
         if is_none w && can_use_truncate d t then (clear_table d t, [], Ok (length (tb_rows tb)))
         else
+          match select_rows ctx w (indexed 0 (tb_rows tb)) with
+          | None => (d, [], Err (AtValidate 0) CzCheck 0)
+          | Some cands =>
           let ev := EvDelete in
-          let cands := collect_rows ctx w (indexed 0 (tb_rows tb)) in
           let '(d1, l1, r1) := if is_none ctx then fireS (d_trigs d) t Before ev d else (d, [], None) in
           match r1 with
           | Some c => (d1, l1, Err AtBeforeStmt c 0)
@@ -643,6 +639,7 @@ Section Exec.
                       end
                   end
               end
+          end
           end
     end.
 
